@@ -1339,6 +1339,16 @@ class VarSub(Vars):
                          var.shape, var.vtype, var.name, var.sparray)
         self.indices = indices
 
+    def get(self):
+        """
+        Return the optimal solution of the selected entries of the
+        decision variable, as a NumPy array shaped like the subscript.
+        """
+
+        var_sol = np.array(super().get())
+
+        return var_sol.reshape((var_sol.size, ))[self.indices]
+
     def __repr__(self):
 
         var_name = '' if not self.name else 'slice of {}: '.format(self.name)
